@@ -28,8 +28,8 @@ CONSTANTS
   FailSaves = TRUE
   Focus = TRUE
   Record = TRUE
-  D = 40
   Gaps = {}
   Bugs = {}
+  D = 48
 INVARIANTS DumpSched
 CHECK_DEADLOCK FALSE
